@@ -122,7 +122,7 @@ package leader
 //@ lockinv kvElection.mu C02+C09.claim_implies_running:  isLeader ==> (ctx != nil && !stopped)
 //@ lockinv kvElection.mu C18+C02+C09.stopped_implies_state:  stopped ==> state == "STOPPED"
 //@ lockinv kvElection.mu C09+C19.cancel_set_with_ctx:    ctx != nil && !stopped ==> cancel != nil
-//@ lockinv kvElection.mu C19.term_cancel_set:            isLeader ==> termCancel != nil
+//@ lockinv kvElection.mu C19+C03+C07.term_cancel_set:            isLeader ==> termCancel != nil
 //@ lockinv kvElection.mu C01+C02.leader_has_written:         isLeader ==> revSet
 
 // Hooks that apply in every function: whoever stores the claim refreshes the
@@ -144,7 +144,7 @@ package leader
 //@   ghost $lastDrawn Int = 0
 //@   on call uuid.String as u set $tokenDrawn = u.random
 //@   on call uuid.String as u set $lastDrawn = u.result
-//@   on call KeyValue.Create as c assert C05.token_drawn_for_this_attempt: $tokenDrawn && TokenOf(c.value) == $lastDrawn
+//@   on call KeyValue.Create as c assert C05+C01.token_drawn_for_this_attempt: $tokenDrawn && TokenOf(c.value) == $lastDrawn
 //@   on ret KeyValue.Create set $tokenDrawn = false
 //@   on call wg.Add assert C20+C09.wait_group_grows_under_the_mutex_or_on_a_tracked_goroutine: (nheld(kvElection.mu) >= 1 && e.stopsWaiting == 0) || caller.onTrackedGoroutine
 //@   on call kvElection.onDemote assert C08+C09+C11+C13+C03+C06+C04+C12.callbacks_run_outside_the_mutex: nheld(kvElection.mu) == 0
@@ -165,7 +165,7 @@ package leader
 //@ iface KeyValue.Create(key, value, opts)
 //@   requires C01.key_is_group: key == e.key
 //@   requires C06+C07+C10.record_lease_is_the_configured_ttl: eachDuration(opts, e.cfg.TTL)
-//@   requires C01+C05+C02.create_payload: IDOf(value) == e.cfg.InstanceID && PrioOf(value) == e.cfg.Priority && FreshTok(TokenOf(value)) && ParseOK(value)
+//@   requires C01+C05+C02+C10.create_payload: IDOf(value) == e.cfg.InstanceID && PrioOf(value) == e.cfg.Priority && FreshTok(TokenOf(value)) && ParseOK(value)
 //@   assumes result1 == nil ==> Own(result0) && result0 > 0 && PubTok(result0) == TokenOf(value) && PubID(result0) == IDOf(value) && OwnTok(TokenOf(value))
 
 //@ iface KeyValue.Update(key, value, rev, opts)
@@ -180,7 +180,7 @@ package leader
 
 //@ iface KeyValue.Delete(key)
 //@   requires C01.key_is_group: key == e.key
-//@   requires C01+C02.delete_only_by_stopping_leader: caller.mayDelete
+//@   requires C01+C02+C07.delete_only_by_stopping_leader: caller.mayDelete
 //@   requires C01+C02.delete_after_claim_cleared: $claimCleared
 //@   requires C01.delete_by_current_owner: OwnsRecordNow(e)
 
@@ -188,9 +188,9 @@ package leader
 // then names its own last write, and the store removes the record only if that is still the latest revision.
 //@ iface RevisionDeleter.DeleteRevision(key, rev)
 //@   requires C01.key_is_group: key == e.key
-//@   requires C01+C02.delete_only_by_stopping_leader: caller.mayDelete
+//@   requires C01+C02+C07.delete_only_by_stopping_leader: caller.mayDelete
 //@   requires C01+C02.delete_after_claim_cleared: $claimCleared
-//@   requires C01+C09.conditional_delete_names_own_write: Own(rev)
+//@   requires C01+C09+C02+C07.conditional_delete_names_own_write: Own(rev)
 
 //@ iface KeyValue.Watch(key, opts)
 //@   requires C01.key_is_group: key == e.key
@@ -530,7 +530,7 @@ package leader
 //@   on ret KeyValue.Get as g when g.result1 == nil set tkEntry = g.result0
 //@   on call KeyValue.Update as c assert C10+C05.update_carries_own_payload: c.value == payloadBytes
 //@   ensures C10+C06+C13.nil_result_means_takeover: result == nil ==> calls(becomeLeader) == 1
-//@   ensures C10.refuses_only_equal_or_higher: tkEntry != 0 && ParseOK(EntryVal(tkEntry)) && e.cfg.Priority > PrioOf(EntryVal(tkEntry)) ==> calls(KeyValue.Update) == 1
+//@   ensures C10+C01+C13.refuses_only_equal_or_higher: tkEntry != 0 && ParseOK(EntryVal(tkEntry)) && e.cfg.Priority > PrioOf(EntryVal(tkEntry)) ==> calls(KeyValue.Update) == 1
 
 //@ func (e *kvElection) becomeLeader(token, rev)
 //@   tags C02 C05 C08 C18 C19 C09
@@ -541,10 +541,10 @@ package leader
 //@   ghost tokStored Bool = false
 //@   on lock kvElection.mu set wasLeaderAtLock = e.isLeader
 //@   on lock kvElection.mu set promoteSet = e.onPromote != nil
-//@   on store kvElection.isLeader as s assert C08.promote_from_non_leader: s.value ==> !wasLeaderAtLock
+//@   on store kvElection.isLeader as s assert C08+C03.promote_from_non_leader: s.value ==> !wasLeaderAtLock
 //@   on store kvElection.token as s assert C05+C02.term_token_is_published_token: s.value == token
 //@   on store kvElection.token set tokStored = true
-//@   on store kvElection.revision as s assert C01.token_before_revision: tokStored && s.value == rev
+//@   on store kvElection.revision as s assert C01+C05.token_before_revision: tokStored && s.value == rev
 //@   on store kvElection.revision set e.revSet = true
 //@   ghost revStoredHere Bool = false
 //@   on store kvElection.revision set revStoredHere = true
@@ -556,7 +556,7 @@ package leader
 //@   on call onPromote assert C08.promote_once_per_activation: calls(onPromote) == 1
 //@   ghost tcFn Int = 0
 //@   on store kvElection.termCancel as s set tcFn = s.value
-//@   on store kvElection.termCancel assert C19.term_cancel_replaced_only_between_terms: !wasLeaderAtLock
+//@   on store kvElection.termCancel assert C19+C03+C08.term_cancel_replaced_only_between_terms: !wasLeaderAtLock
 //@   on call heartbeatLoop as c assert C07+C12+C03.loops_bound_to_the_term: tcFn != nil && CancelTarget(tcFn) == c.ctx
 //@   on call validationLoop as c assert C07+C04.loops_bound_to_the_term: tcFn != nil && CancelTarget(tcFn) == c.ctx
 //@   ghost claimed Bool = false
@@ -580,7 +580,7 @@ package leader
 
 //@ func (e *kvElection) demote(unlessLeader)
 //@   tags C03 C07 C08 C18 C19 C06
-//@   requires C07+C10+C08.no_demotion_without_cause: unlessLeader || caller.demote_cause
+//@   requires C07+C10+C08+C11+C13.no_demotion_without_cause: unlessLeader || caller.demote_cause
 //@   ghost out cleared Bool = false
 //@   ghost termCancelled Bool = false
 //@   ghost mayCancelTerm Bool = false
@@ -825,7 +825,7 @@ package leader
 //@   ghost leaderThisTick Bool = false
 //@   on recv ticker set leaderThisTick = false
 //@   on load kvElection.isLeader as l set leaderThisTick = l.value
-//@   on call KeyValue.Update assert C06+C03+C07+C09.refresh_only_while_leader: leaderThisTick
+//@   on call KeyValue.Update assert C06+C03+C07+C09+C01.refresh_only_while_leader: leaderThisTick
 //@   on call HealthChecker.Check assert C12.health_only_while_leader: leaderThisTick
 //@   on recv ticker set failed = false
 //@   on recv ticker set classified = false
@@ -840,7 +840,7 @@ package leader
 //@   on recv ticker set marshalFailed = false
 //@   on call KeyValue.Update set refreshIssued = true
 //@   on call json.Marshal as m set marshalFailed = m.result1 != nil
-//@   on backedge 0 assert C03+C07.every_tick_of_a_healthy_leader_refreshes: ticked && leaderThisTick && !unhealthyThisTick && !marshalFailed ==> refreshIssued
+//@   on backedge 0 assert C03+C07+C12.every_tick_of_a_healthy_leader_refreshes: ticked && leaderThisTick && !unhealthyThisTick && !marshalFailed ==> refreshIssued
 //@   ghost checkCtx Int = 0
 //@   ghost checkCtxFresh Bool = false
 //@   on recv ticker set checkCtxFresh = false
@@ -858,7 +858,7 @@ package leader
 //@   on load kvElection.revision set revLoaded = true
 //@   on load kvElection.token as l assert C01+C05+C07.revision_before_token: revLoaded
 //@   on load kvElection.token as l set lastTok = l.value
-//@   on call json.Marshal as m assert C05+C07+C02.heartbeat_payload: m.v.ID == e.cfg.InstanceID && m.v.Token == lastTok && m.v.Priority == e.cfg.Priority
+//@   on call json.Marshal as m assert C05+C07+C02+C01+C10.heartbeat_payload: m.v.ID == e.cfg.InstanceID && m.v.Token == lastTok && m.v.Priority == e.cfg.Priority
 //@   on call time.After as a assert C03+C07.timeout_value: a.d == max(e.cfg.HeartbeatInterval / 2, 1000000000)
 //@   on select as s assert C03+C07+C09+C18+C19.every_wait_of_the_refresh_loop_ends_with_the_term: s.blocking ==> s.hasDone && s.doneCtx == ctx
 //@   on call KeyValue.Update assert C03.attempt_time_boxed: inspawn()
@@ -879,7 +879,7 @@ package leader
 //@   on store kvElection.revision set cfail = 0
 //@   on call handleHeartbeatFailure as c set hbfCalled = true
 //@   on call handleHeartbeatFailure as c set heartbeat_failed = failed && c.err != nil
-//@   on call handleHeartbeatFailure as c assert C07.demotes_only_on_real_failure: failed && classified && (isPerm || cfail >= 3)
+//@   on call handleHeartbeatFailure as c assert C07+C03.demotes_only_on_real_failure: failed && classified && (isPerm || cfail >= 3)
 //@   loop 0 invariant C03.fail_count: 0 <= $v && $v <= 2 && $v == cfail
 //@   loop 0 invariant C03.no_pending_demotion: (failed ==> classified) && !(classified && isPerm) && !hbfCalled && !pendingCancel && onTrackedGoroutine
 //@   ghost tickerPeriodOK Bool = false
@@ -921,13 +921,13 @@ package leader
 //@   on call becomeFollower set demote_cause = runDead
 //@   on ret becomeFollower as r set cleared = r.result
 //@   on load kvElection.onDemote as l set demoteSet = l.value != nil
-//@   ensures C03+C02+C19.cancelled_run_ends_its_term: runDead ==> calls(becomeFollower) == 1
+//@   ensures C03+C02+C19+C09.cancelled_run_ends_its_term: runDead ==> calls(becomeFollower) == 1
 //@   ensures C07+C08.live_run_left_alone: !runDead ==> calls(becomeFollower) == 0 && calls(onDemote) == 0
 //@   ensures C08+C03.demote_iff_claim_cleared: calls(onDemote) == ((cleared && demoteSet) ? 1 : 0)
 
 //@ func (e *kvElection) handleHealthCheckFailure()
 //@   tags C12 C08 C07
-//@   requires C07.health_really_exhausted: caller.health_exhausted
+//@   requires C07+C12.health_really_exhausted: caller.health_exhausted
 //@   ghost demote_cause Bool = false
 //@   ghost cleared Bool = false
 //@   ghost demoteSet Bool = false
@@ -1021,7 +1021,7 @@ package leader
 //@   on ret KeyValue.Get as g set getErr = g.result1
 //@   on ret KeyValue.Get as g set getEnt = g.result0
 //@   on ret KeyValue.Get set got = true
-//@   on store kvElection.revision assert C07+C01.leader_never_adopts_observed_revision: !sawLeader
+//@   on store kvElection.revision assert C07+C01+C03+C05.leader_never_adopts_observed_revision: !sawLeader
 //@   on store kvElection.leaderID as s assert C18.leader_never_adopts_observed_id: !sawLeader || s.value == e.cfg.InstanceID
 //@   ensures C06.vacancy_triggers_acquire: got && (getErr != nil || getEnt == nil || LenOf(EntryVal(getEnt)) == 0) ==> scalls(attemptAcquireWithRetry) == 1
 //@   ensures C13.no_acquire_on_live_record: got && getErr == nil && getEnt != nil && LenOf(EntryVal(getEnt)) != 0 ==> scalls(attemptAcquireWithRetry) == 0
@@ -1047,7 +1047,7 @@ package leader
 //@   on load kvElection.isLeader as l set sawLeader = l.value
 //@   on load kvElection.revision as l set ownRev = l.value
 //@   on load kvElection.revision set revLoaded = true
-//@   on store kvElection.revision assert C07+C01.leader_never_adopts_observed_revision: !sawLeader
+//@   on store kvElection.revision assert C07+C01+C03+C05.leader_never_adopts_observed_revision: !sawLeader
 //@   on store kvElection.leaderID as s assert C18.leader_never_adopts_observed_id: !sawLeader || s.value == e.cfg.InstanceID
 //@   on call becomeFollower set demote_cause = sawLeader && ParseOK(EntryVal(entry)) && IDOf(EntryVal(entry)) != e.cfg.InstanceID && revLoaded && EntryRev(entry) > ownRev
 //@   on ret becomeFollower as r set cleared = r.result
